@@ -969,3 +969,85 @@ pub fn run_c14(ctx: &Ctx) -> i32 {
         &["'all strings' is bounded by the length / mutation-distance bounds stated in the rule", "the process-level claim is judged on the release build of the CLI (the dev profile of the CLI does not compile on this toolchain)"],
     )
 }
+
+/// Replay of a recorded UCI case (C07 / C18 traces, C14 inputs).
+pub fn replay(ctx: &Ctx, v: &Value, l: &mut Local) {
+    let kind = v["kind"].as_str().unwrap_or("");
+    let d = &v["detail"];
+    if ctx.prop == "C14" {
+        if kind.ends_with("parser-panics") {
+            use weechess_core::notation::{try_from_notation, Fen, San};
+            let input = d["input"].as_str().unwrap_or("").to_string();
+            let is_fen = kind.starts_with("fen");
+            let r = std::panic::catch_unwind(|| {
+                if is_fen {
+                    try_from_notation::<weechess_core::State, Fen>(&input).is_ok()
+                } else {
+                    try_from_notation::<weechess_core::MoveQuery, San>(&input).is_ok()
+                }
+            });
+            println!("parser result: {:?} (this binary: {})", r.as_ref().map_err(|_| "panic"), if cfg!(debug_assertions) { "checked profile" } else { "plain release" });
+            if r.is_err() {
+                ctx.violation(kind, input, json!({}));
+            }
+        } else {
+            let line = d["line"].as_str().unwrap_or("").to_string();
+            let mut s = Session::spawn();
+            s.send("position startpos");
+            s.send(&line);
+            if let Err((f, _)) = s.barrier(HANG) {
+                ctx.violation(kind, line.clone(), json!({"failure": format!("{:?}", f)}));
+            }
+            let (_, code, err, _) = s.finish(Duration::from_secs(5));
+            println!("exit status {:?}; stderr tail {:?}", code, err.iter().rev().take(3).collect::<Vec<_>>());
+        }
+        return;
+    }
+    let trace: Vec<String> = d["trace"].as_array().map(|a| a.iter().filter_map(|x| x.as_str().map(|s| s.to_string())).collect()).unwrap_or_default();
+    if ctx.prop == "C07" {
+        // map the text back to model commands
+        let m = UModel { alphabet: vec![], max_len: usize::MAX };
+        let mut st = m.init_states().remove(0);
+        for t in &trace {
+            let cmd = if t == "uci" {
+                Cmd::Uci
+            } else if t == "isready" {
+                Cmd::IsReady
+            } else if t == "ucinewgame" {
+                Cmd::NewGame
+            } else if t == "stop" {
+                Cmd::Stop
+            } else if t == "quit" {
+                Cmd::Quit
+            } else if let Some(i) = POSITIONS.iter().position(|p| p.0 == t) {
+                Cmd::Position(i)
+            } else if let Some(i) = GOS.iter().position(|g| g == t) {
+                Cmd::Go(i)
+            } else {
+                panic!("unknown command in trace: {}", t)
+            };
+            st = m.next_state(&st, cmd).unwrap();
+        }
+        let wait = d["timing"].as_str() == Some("wait");
+        replay_trace(ctx, &st, wait, false, l);
+        return;
+    }
+    // C18: raw trace; the last `go` must answer the expected move with a mate score
+    let mut s = Session::spawn();
+    let mut last: Vec<String> = Vec::new();
+    for t in &trace {
+        if t == "isready" {
+            let _ = s.barrier(HANG);
+            continue;
+        }
+        s.send(t);
+        if t.starts_with("go depth 1") || t == trace.last().unwrap() {
+            last = s.read_until(is_bestmove, Duration::from_secs(30)).unwrap_or_default();
+        }
+    }
+    let (score, bm) = last_score_and_bestmove(&last);
+    println!("score {:?} bestmove {:?} expected {:?}", score, bm, d["expected_bestmove"]);
+    if !(score.map(|x| x >= 10_000.0).unwrap_or(false) && bm.as_deref() == d["expected_bestmove"].as_str()) {
+        ctx.violation(kind, trace.join("; "), json!({"score": score, "bestmove": bm}));
+    }
+}
